@@ -25,6 +25,7 @@ class Context:
         # Locals don't need to be in a stack because nested routines aren't
         # allowed.
         self._in_routine = False
+        self._in_matrix = False
         self._globals.clear()
         self._locals.clear()
         self._loop_stack.clear()
